@@ -482,3 +482,304 @@ def all_strings(alpha, n):
 
 def rand_string(rng, alpha, lo, hi):
     return ''.join(rng.choice(alpha) for _ in range(rng.randint(lo, hi)))
+
+
+# ---------------------------------------------------------------------------------------------
+# stateful sessions (Memfs histories): a history = list of lines starting with `new ...`
+# ---------------------------------------------------------------------------------------------
+def _limit():
+    import resource
+    resource.setrlimit(resource.RLIMIT_AS, (3 << 30, 3 << 30))
+
+
+def _harness_sessions(mode, hists, timeout_s):
+    """run histories through one harness process; on a hang (timeout / crash) mark the stuck line
+    `hang` (or `crash`), the rest of that history `skipped`, and continue with a new process."""
+    results = []
+    i = 0
+    while i < len(hists):
+        batch = hists[i:]
+        lines = [l for h in batch for l in h]
+        inp = ('\n'.join(lines) + '\n').encode()
+        p = subprocess.Popen([HARNESS, mode], stdin=subprocess.PIPE, stdout=subprocess.PIPE, stderr=subprocess.DEVNULL, env=ENV, preexec_fn=_limit)
+        try:
+            out, _ = p.communicate(inp, timeout=timeout_s + 0.002 * len(lines))
+            died = p.returncode != 0
+            hung = False
+        except subprocess.TimeoutExpired:
+            p.kill()
+            out, _ = p.communicate()
+            died, hung = True, True
+        got = out.decode('utf8', 'replace').split('\n')
+        if got and got[-1] == '':
+            got.pop()
+        if not died and len(got) == len(lines):
+            k = 0
+            for h in batch:
+                results.append(got[k:k + len(h)])
+                k += len(h)
+            break
+        # find the history in which the output stopped
+        k = 0
+        advanced = False
+        for j, h in enumerate(batch):
+            if k + len(h) <= len(got):
+                results.append(got[k:k + len(h)])
+                k += len(h)
+                continue
+            res = got[k:][:len(h)]
+            if len(res) < len(h):
+                res = res + ['hang' if hung else 'crash'] + ['skipped'] * (len(h) - len(res) - 1)
+            results.append(res)
+            i = i + j + 1
+            advanced = True
+            break
+        if not advanced:
+            break
+    return results
+
+
+def run_sessions(hists, tag, mode='memfs', timeout_s=6.0, per_chunk=40):
+    """returns (impl, drv): lists (per history) of result lines"""
+    chunks = [hists[i:i + per_chunk] for i in range(0, len(hists), per_chunk)] or [[]]
+
+    def one(c):
+        impl = _harness_sessions(mode, c, timeout_s)
+        lines = [l for h in c for l in h]
+        b = subprocess.run([DRIVER], input=('\n'.join(lines) + '\n').encode(), capture_output=True)
+        got = b.stdout.decode('utf8', 'replace').split('\n')
+        if got and got[-1] == '':
+            got.pop()
+        drv, k = [], 0
+        for h in c:
+            r = got[k:k + len(h)]
+            r += ['driver-died'] * (len(h) - len(r))
+            drv.append(r)
+            k += len(h)
+        return impl, drv
+
+    impl, drv = [], []
+    with ThreadPoolExecutor(max_workers=NCPU) as ex:
+        for a, b in ex.map(one, chunks):
+            impl += a
+            drv += b
+    return impl, drv
+
+
+# ---------------------------------------------------------------------------------------------
+# Memfs sessions: correspondence + judge
+# ---------------------------------------------------------------------------------------------
+def abs_of_dump(raw):
+    """abstract view (names, kinds, perms, owners, link targets, contents, cwd) of a raw
+    `verif::memfs_dump`; produces the same text as Lean's `absDump`"""
+    if ' ## ' in raw:
+        raw = raw.split(' ## ', 1)[1]
+    recs = raw.split('|')
+    cwd, ents, data = '', [], {}
+    for r in recs:
+        if r.startswith('cwd '):
+            cwd = r[4:]
+        elif r.startswith('F '):
+            p = r.split(' ')
+            data[p[1]] = p[2][len('data='):]
+    for r in recs:
+        if r.startswith('E '):
+            p = r.split(' ')
+            key = p[1]
+            f = dict(x.split('=', 1) for x in p[2:])
+            link, d = f['l'] == '1', f['d'] == '1'
+            kind = ('ld' if d else 'lf') if link else ('d' if d else 'f')
+            perm = int(f['mode'], 8) - (0o120000 if link else (0o40000 if d else 0o100000))
+            tgt = f['alt'] if link and f['alt'] != '' else ('-' if not link else '-')
+            dat = '' if link else data.get(key, '')
+            comps = [bytes.fromhex(x) for x in key[2:].split('2f')] if key != '2f' else []
+            ents.append((comps, f'{key}:{kind}:{perm:o}:{f["uid"]}:{f["gid"]}:{tgt}:{dat}'))
+    ents.sort(key=lambda x: x[0])
+    return '|'.join(['cwd=' + cwd] + [e[1] for e in ents])
+
+
+UNORDERED_OPS = ('entries', 'chown_b', 'chown', 'copy_b', 'copy', 'chmod_b', 'chmod', 'mkfile_m')
+
+
+def cmp_line(req, impl, model):
+    """'agree' | 'dead' (agree, but the rest of the history is meaningless) | 'mismatch'"""
+    io, mo = impl.split(' ## ')[0], model.split(' ## ')[0]
+    if io in ('hang', 'crash') and mo == 'hang':
+        return 'dead'
+    if io == 'panic' and mo == 'panic':
+        return 'dead'
+    if io == 'skipped' or mo == 'skipped':
+        return 'dead'
+    if impl == model:
+        return 'agree'
+    op = req.split(' ')[0]
+    # HashSet iteration order is unspecified: a traversal that fails half-way has applied an
+    # order-dependent subset of its effects; equal-name ties of a sorted traversal that follows
+    # links are ordered arbitrarily
+    if op in UNORDERED_OPS and io == mo and 'LinkLooping' in io:
+        return 'dead'
+    if op in UNORDERED_OPS and 'LinkLooping' in io and 'LinkLooping' in mo:
+        return 'dead'
+    a = req.split(' ')
+    follow = (op == 'copy_b' and a[5] == '1') or (op in ('chown_b', 'chmod_b') and a[4] == '1') or (op == 'entries' and a[5] == '1')
+    if follow and io.startswith('err') and mo.startswith('err'):
+        return 'dead'
+    if op == 'move_p' and 'hang' in (io, mo) and all(x == 'hang' or x == 'crash' or x.startswith('err') for x in (io, mo)):
+        return 'dead'    # moving a directory into its own subtree: hang or error depending on child order
+    if op == 'entries' and io.startswith('ok t:') and mo.startswith('ok t:'):
+        a = req.split(' ')
+        if a[5] == '1' and sorted(io[5:].split(',')) == sorted(mo[5:].split(',')) and impl.split(' ## ')[1:] == model.split(' ## ')[1:]:
+            return 'agree'
+    return 'mismatch'
+
+
+def memfs_check(spec, tier, seed, replay=None):
+    """
+    spec: prop, lean_mod, gen(tier, rng) -> list of histories, judge(req, impl, fields, prev_impl) -> None | (expected, why),
+          rule, assumptions, trusted_base, nontrivial(req, impl) -> bool, optional mode ('memfs')
+    """
+    prop = spec['prop']
+    V = Verdict(prop, tier, seed)
+    rng = random.Random(seed)
+    known = {f['id']: f for f in load_known(prop)}
+    open_known = {k: f for k, f in known.items() if f.get('status') == 'open'}
+    okh, logh, dth = build_harness()
+    if not okh:
+        V.violation('harness_build', dict(kind='build', what='the harness does not build against /repo', log=logh), no_input=True)
+        return V.finish('proof', dict(obligations=1, discharged=0, checker_cmd='cargo build', trusted_base=[], explanation='harness build failed'), spec['assumptions'])
+    okd, logd, dtd = build_lean(['driver'])
+    okl, logl, dtl = build_lean([spec['lean_mod']])
+    if not okd:
+        V.violation('driver_build', dict(kind='build', what='the Lean driver does not build', log=logd), no_input=True)
+        return V.finish('proof', dict(obligations=1, discharged=0, checker_cmd='lake build driver', trusted_base=[], explanation='driver build failed'), spec['assumptions'])
+    proof_broken = []
+    if okl:
+        A = audit(spec['lean_mod'])
+        if not A['ok']:
+            proof_broken += A['problems']
+    else:
+        A = dict(ok=False, obligations=max(1, len(theorem_names(spec['lean_mod']))), discharged=0, problems=['lake build failed'], axioms={}, closure=[], external_imports=[], theorems=[])
+        proof_broken.append('lake build ' + spec['lean_mod'] + ' failed: ' + logl[-1500:])
+    chk = None
+    if tier == 'thorough' and okl:
+        okc, logc, dtc = leanchecker(spec['lean_mod'])
+        chk = dict(ok=okc, seconds=round(dtc, 1))
+        if not okc:
+            proof_broken.append('leanchecker rejected ' + spec['lean_mod'] + ': ' + logc[-500:])
+
+    if replay:
+        rp = json.load(open(replay))
+        hists, geninfo = [rp['requests']] if rp.get('requests') and rp['requests'][0].startswith('new') else [['new eHOME=2f68'] + rp.get('requests', [])], dict(kind='replay', file=replay)
+    else:
+        hists, geninfo = spec['gen'](tier, rng)
+    st = analyse_sessions(spec, hists, open_known, prop)
+    searched = 0
+    if (st['mismatch'] or proof_broken) and not st['new_fail'] and tier == 'quick' and not replay:
+        wl, _ = spec['gen']('thorough', rng)
+        wl = wl[:4000]
+        searched = sum(len(h) for h in wl)
+        st2 = analyse_sessions(spec, wl, open_known, prop + '_search')
+        st['new_fail'] += st2['new_fail']
+        st['evaluations'] += st2['evaluations']
+
+    # known findings: replay the recorded witness histories
+    reproduced = []
+    for fid, f in open_known.items():
+        w = f.get('witness_history')
+        if not w:
+            continue
+        impl, drv = run_sessions([w], prop + '_known', mode=f.get('mode', spec.get('mode', 'memfs')))
+        last = impl[0][-1].split(' ## ')[0] if impl and impl[0] else ''
+        want = f.get('impl_last')
+        ok_repro = (want is None) or (last == want)
+        if ok_repro and 'impl_state_contains' in f:
+            ok_repro = f['impl_state_contains'] in impl[0][-1]
+        if ok_repro:
+            V.known(fid, f['what_fails'])
+            reproduced.append(fid)
+        else:
+            # does the witness now satisfy the property (judge passes on every line)?
+            j = analyse_sessions(spec, [w], {}, prop + '_known2')
+            if not j['new_fail'] and not j['mismatch']:
+                V.notes.append(f'known finding {fid} no longer reproduces (implementation now meets the spec on its witness)')
+            else:
+                st['new_fail'].append(dict(history=w, at=len(w) - 1, impl=last, spec=want, why=f'behaviour on the witness of known finding {fid} differs from the recorded one', cls=fid))
+    for fid in st['known_hits']:
+        if fid in open_known:
+            V.known(fid, open_known[fid]['what_fails'])
+
+    for i, nf in enumerate(st['new_fail'][:3]):
+        h = nf['history']
+        V.violation(f'fail{i}', dict(kind='property-violated', requests=h[:nf['at'] + 1], pretty=[pretty_req(r) for r in h[:nf['at'] + 1]],
+                                     observed=nf['impl'][:4000], expected_by_spec=(nf['spec'] or '')[:4000], why=nf['why'], cls=nf.get('cls')))
+    if not st['new_fail']:
+        if st['mismatch']:
+            mm = st['mismatch'][0]
+            V.violation('correspondence', dict(kind='correspondence-broken', what='implementation and Lean model disagree; no history violating the property was found',
+                                               correspondence=f'memfs harness vs Rivia.Model.MemfsOps.step ({spec["lean_mod"]})', requests=mm['history'][:mm['at'] + 1],
+                                               pretty=[pretty_req(r) for r in mm['history'][:mm['at'] + 1]], impl=mm['impl'][:4000], model=mm['model'][:4000],
+                                               mismatching_histories=len(st['mismatch']), searched=searched), no_input=True)
+        elif proof_broken:
+            V.violation('proof', dict(kind='proof-broken', theorems=proof_broken, searched=searched), no_input=True)
+
+    cov = dict(obligations=A['obligations'], discharged=A['discharged'],
+               checker_cmd=f'cd /verif/lean && lake build {spec["lean_mod"]} && lake env lean ../work/audit/{spec["lean_mod"].split(".")[-1]}.lean  # #print axioms' + (' && lake env leanchecker ' + spec['lean_mod'] if tier == 'thorough' else ''),
+               trusted_base=spec['trusted_base'] + ['Lean 4.33.0 kernel', 'axioms: ' + ', '.join(sorted({a for v in A['axioms'].values() for a in v}) or ['none'])],
+               theorems=A['theorems'], axioms=A['axioms'], proof_problems=proof_broken, leanchecker=chk,
+               evaluations=st['evaluations'], distinct_nontrivial=st['distinct_nontrivial'], rule=spec['rule'], samples=st['samples'],
+               exhaustive=bool(geninfo.get('exhaustive')), generator=geninfo, histories=len(hists),
+               model_disagreements=len(st['mismatch']), spec_failures_new=len(st['new_fail']), spec_failures_in_known_classes=st['known_fail_count'],
+               known_findings_reproduced=sorted(set(reproduced) | (st['known_hits'] & set(open_known))),
+               op_histogram=st['ops'], outcome_histogram=st['hist'], judged_steps=st['judged'], tolerated_order_dependent=st['dead_order'],
+               searched_after_break=searched, notes=V.notes, build_seconds=dict(harness=round(dth, 1), driver=round(dtd, 1), proofs=round(dtl, 1)))
+    return V.finish('proof', cov, spec['assumptions'])
+
+
+def analyse_sessions(spec, hists, open_known, tag):
+    impl, drv = run_sessions(hists, tag, mode=spec.get('mode', 'memfs'))
+    mismatch, new_fail, known_hits, hist, ops = [], [], set(), {}, {}
+    seen, samples = set(), []
+    judged = known_fail_count = evaluations = dead_order = 0
+    nontrivial = spec.get('nontrivial', lambda req, impl: not impl.startswith('ok b:0'))
+    for hi, (h, a, b) in enumerate(zip(hists, impl, drv)):
+        judging = True
+        prev = ''
+        for i, (req, x, y) in enumerate(zip(h, a, b)):
+            if req.startswith('new'):
+                prev = x
+                continue
+            f = y.split('\t')
+            model = f[0]
+            evaluations += 1
+            op = req.split(' ')[0]
+            ops[op] = ops.get(op, 0) + 1
+            xo = x.split(' ## ')[0]
+            key = xo.split(' ')[0] + (' ' + xo.split(' ')[1] if xo.startswith('err') and ' ' in xo else '')
+            hist[key] = hist.get(key, 0) + 1
+            c = cmp_line(req, x, model)
+            if c == 'mismatch':
+                mismatch.append(dict(history=h, at=i, impl=x, model=model))
+                break
+            if c == 'dead':
+                if 'LinkLooping' in xo:
+                    dead_order += 1
+                break
+            if nontrivial(req, x):
+                seen.add(hashlib.md5((prev.split(' ## ')[-1] + '#' + req).encode()).hexdigest())
+            if judging:
+                j = spec['judge'](req, x, f, prev)
+                judged += 1
+                if j:
+                    cls = f[2] if len(f) > 2 else '-'
+                    cls = j[2] if len(j) > 2 and j[2] else cls
+                    if cls != '-' and cls in open_known:
+                        known_hits.add(cls)
+                        known_fail_count += 1
+                    else:
+                        new_fail.append(dict(history=h, at=i, impl=x, spec=j[0], why=j[1] + (f' (class {cls} is not an open known finding)' if cls != '-' else ''), cls=cls))
+                    judging = False   # the reference and the implementation may have diverged
+            prev = x
+        if hi % max(1, len(hists) // 4) == 0 and len(samples) < 6 and len(h) > 1:
+            samples.append(dict(history=[pretty_req(r) for r in h[:12]], last_impl=a[min(len(a), 12) - 1][:300]))
+    return dict(mismatch=mismatch, new_fail=new_fail, known_hits=known_hits, hist=hist, ops=ops, evaluations=evaluations,
+                distinct_nontrivial=len(seen), samples=samples, known_fail_count=known_fail_count, judged=judged, dead_order=dead_order)
